@@ -351,7 +351,9 @@ impl<'grammar> TypeInferencer<'grammar> {
 
             AlternativeAction::User(&ActionKind::Lookahead)
             | AlternativeAction::User(&ActionKind::Lookbehind) => {
-                Ok(self.types.opt_terminal_loc_type().unwrap().clone())
+                // (`()` when an `extern` block declares no `Location` type, exactly as for
+                // a nonterminal with a type annotation)
+                Ok(self.types.terminal_loc_type())
             }
 
             AlternativeAction::Default(Symbols::Named(ref syms)) => {
